@@ -372,8 +372,11 @@ def arc_include(thetas, reference_theta):
     s_reference = np.expand_dims(reference_theta - thetas[..., 0],
                                  axis=-1)
 
-    s_theta1[s_theta1 < 0] += 2 * np.pi
-    s_reference[s_reference < 0] += 2 * np.pi
+    # np.where (rather than masked in-place addition) so that a
+    # single pair of angles is handled as well as an array of pairs
+    s_theta1 = np.where(s_theta1 < 0, s_theta1 + 2 * np.pi, s_theta1)
+    s_reference = np.where(s_reference < 0, s_reference + 2 * np.pi,
+                           s_reference)
 
     to_swap = (s_theta1 < s_reference[..., 0])
 
